@@ -2,6 +2,7 @@ package main
 
 import (
 	"fmt"
+	"os"
 	"go/types"
 	"sort"
 	"strings"
@@ -548,6 +549,9 @@ func (x *Exec) havocHeap(st *State, name string) {
 		}
 	}
 	st.heaps[name] = x.tt.Fresh(name+"@h", srt)
+	if d := os.Getenv("GOVC_DEBUG_HAVOC"); d != "" && strings.Contains(name, d) {
+		fmt.Fprintf(os.Stderr, "debug: havoc %s -> %s at %s\n", name, st.heaps[name].String(), x.posStr(x.curPos))
+	}
 	x.recordWrite(name, nil)
 }
 
@@ -561,7 +565,63 @@ func (x *Exec) havocAll(st *State) {
 	}
 	st.clk = x.advanceClk(st)
 	x.havocAllCount++
+	x.havocEvents = append(x.havocEvents, nil)
 }
+
+// havocAllKeeping: havoc of every heap except those selected by keep (and non-escaping locals).
+func (x *Exec) havocAllKeeping(st *State, keep func(string) bool) {
+	for _, n := range x.allHeapNames(st) {
+		if strings.HasPrefix(n, "L$") || keep(n) {
+			continue
+		}
+		x.havocHeap(st, n)
+	}
+	st.clk = x.advanceClk(st)
+	x.havocEvents = append(x.havocEvents, keep)
+}
+
+// preservesKeep: the heaps a contract with `preserves T…` leaves untouched.
+func preservesKeep(con *Contract) func(string) bool {
+	return func(n string) bool {
+		for _, T := range con.Preserves {
+			if strings.HasPrefix(n, "H$"+T+"$") {
+				return true
+			}
+		}
+		return false
+	}
+}
+
+// ownStructFieldHeap: H$T$f with T a named struct type of the package under verification.
+func ownStructFieldHeap(n string) bool {
+	if !strings.HasPrefix(n, "H$") {
+		return false
+	}
+	rest := n[2:]
+	i := strings.LastIndex(rest, "$")
+	if i <= 0 || i+1 >= len(rest) {
+		return false
+	}
+	return !strings.ContainsAny(rest[:i], ".{[*( ")
+}
+
+// ownUnexportedFieldHeap: H$T$f with T a named struct type of the package under verification and f unexported.
+func ownUnexportedFieldHeap(n string) bool {
+	if !strings.HasPrefix(n, "H$") {
+		return false
+	}
+	rest := n[2:]
+	i := strings.LastIndex(rest, "$")
+	if i <= 0 || i+1 >= len(rest) {
+		return false
+	}
+	T, f := rest[:i], rest[i+1:]
+	if strings.ContainsAny(T, ".{[*( ") {
+		return false
+	}
+	return f[0] >= 'a' && f[0] <= 'z'
+}
+
 
 func (x *Exec) allHeapNames(st *State) []string {
 	m := map[string]bool{}
